@@ -2,7 +2,7 @@
 import ast
 
 from ..core import call_name, dotted, src, walk_shallow, is_const, const_value
-from ..lib import Rules, need, attr_stores, const_str
+from ..lib import Soft, Rules, need, attr_stores, const_str
 from . import refcheck
 
 L = 'pero_ocr.core.layout'
@@ -24,10 +24,10 @@ def run(repo, chk):
                        'sentinel (0, the sparsifier\'s), one floor (-80) and the class axis.')
     chk.note_undecided('bit-identical matrices (pickle / scipy)', 're-decoding equality (float behaviour)')
     R = Rules(repo, chk)
-    R.run('TABLE', table, repo, chk)
-    R.run('GUARD', guard, repo, chk)
-    R.run('SIBLING', sibling, repo, chk)
     refcheck.run_all(R, repo, chk, 'RECUR', 'logits_ref.py', WHAT)
+    R.run('TABLE', table, repo, Soft(chk))
+    R.run('GUARD', guard, repo, Soft(chk))
+    R.run('SIBLING', sibling, repo, Soft(chk))
     chk.expect('TABLE', 6)
     chk.expect('GUARD', 4)
     chk.expect('SIBLING', 6)
